@@ -8,8 +8,9 @@ from checks.common import absorb, replay_generic
 EVIDENCE = dict(
     level="model_checking",
     rule="cases = every document TLC builds from the 9-letter alphabet {H1,H2,H3,P normal,P > max,L,T,I,new page} up to "
-         "MaxLen letters in two page-numbering schemes (exhaustive) plus -simulate documents over the wide alphabet "
-         "(levels 1-6, four paragraph size classes, images without description, up to 12 letters); each is materialised as a "
+         "MaxLen letters in two page-numbering schemes (exhaustive), every document of <= 4 letters over {H1, one-word P, "
+         "normal P, L(3), L(70), new page} (list introductions, oversized lists), plus -simulate documents over the wide alphabet "
+         "(levels 1-6, four paragraph size classes, images without description, L(70), up to 12 letters); each is materialised as a "
          "model.Document and chunked by rag.ChunkDocument, ChunkDocumentWithConfig (all presets), NewChunker().Chunk and "
          "NewChunkerWithConfig; non-trivial = document with >= 2 heading levels or a paragraph above the maximum; distinct by "
          "element sequence + page numbers. Random larger documents are validated only through ChunkingTrace.tla.",
@@ -82,14 +83,15 @@ def _validate(ctx, events, label):
         clause = SPEC2SIG.get(rp["clause"], rp["clause"])
         api, mode = doc.get("tag", "?:?").split(":")
         sig = "C12:%s:%s" % (clause, api)
-        if clause == "page-range":
+        if clause == "page-range" and api == "elem":
             sig += ":" + mode
         ev = events[ln]
         ctx.violation(sig, "ChunkingTrace (%s) rejects %s of a %s run (%s pages) at trace line %d [clause %s, %d units consumed, "
                            "%d chunks so far]: %s" % (label, ev["event"], doc.get("cfg"), mode, rp["line"], rp["clause"],
                                                      rp["consumed"], rp["nchunks"], json.dumps(ev)[:300]),
-                      {"trace_segment": events[seg[0]:seg[1]], "rejected_line_in_segment": ln - seg[0] + 1,
-                       "clause": rp["clause"]})
+                      {"via": "tracecase", "case": doc.get("case"), "clause": rp["clause"],
+                       "rejected_line_in_segment": ln - seg[0] + 1,
+                       "trace_segment": [{k: v for k, v in e.items() if k != "case"} for e in events[seg[0]:seg[1]]][:40]})
     ctx.traces_validated += len(segs) - len(badsegs)
 
 
@@ -106,7 +108,8 @@ def run(ctx):
         # R2 emission runs meanwhile
         gen = ctx.tlc("ChunkingMC", "Chunking_gen_quick.cfg" if q else "Chunking_gen_thorough.cfg", workers=1,
                       collect=True, count=False, timeout=3000)
-        sim = ctx.tlc("ChunkingMC", "Chunking_sim.cfg", workers=1, simulate=300 if q else 4000, depth=13,
+        lists = ctx.tlc("ChunkingMC", "Chunking_gen_lists.cfg", workers=1, collect=True, count=False, timeout=3000)
+        sim = ctx.tlc("ChunkingMC", "Chunking_sim.cfg", workers=1, simulate=200 if q else 4000, depth=13,
                       collect=True, count=False, timeout=3000)
         for f, (_, _, kw) in zip(futs, jobs):
             r = f.result()
@@ -115,7 +118,7 @@ def run(ctx):
                 ctx.transitions += r["generated"]
     ctx.exhaustive = True
     seen, cases = set(), []
-    for c in gen["cases"] + sim["cases"]:
+    for c in gen["cases"] + lists["cases"] + sim["cases"]:
         k = json.dumps([c["doc"], c["pages"]])
         if k not in seen:
             seen.add(k)
@@ -123,17 +126,18 @@ def run(ctx):
     if not gen["cases"] or not sim["cases"]:
         raise vlib.MachineryError("TLC emitted no documents")
     ctx.extra["cases_exhaustive"] = len(gen["cases"])
-    ctx.extra["cases_simulated"] = len(cases) - len(gen["cases"])
-    tm = 60 if q else 40
+    ctx.extra["cases_exhaustive_lists"] = len(lists["cases"])
+    ctx.extra["cases_simulated"] = len(sim["cases"])
+    tm = 80 if q else 40
     for i, c in enumerate(cases):
         c["tm"] = tm
-        c["heavy"] = (i % (16 if q else 4) == 0)   # the 32 000-character presets on a fraction of the documents
+        c["heavy"] = (i % (32 if q else 4) == 0)   # the 32 000-character presets on a fraction of the documents
     for c in (cases[len(gen["cases"]) // 3], cases[-1]):
         ctx.sample({"doc": c["doc"], "pages": c["pages"], "expected_paths": [e["path"] for e in c["els"]], "layout_chunker": c["lnorm"]})
     res = absorb(ctx, ctx.run_driver(["c12", "replay"], cases))
     r2events = [e for r in res if r["ok"] for e in (r.get("events") or [])]
     # R3: documents TLC did not generate
-    nreq, ndoc, ln = (16, 4, 30) if q else (64, 12, 40)
+    nreq, ndoc, ln = (16, 3, 30) if q else (64, 12, 40)
     rec = ctx.run_driver(["c12", "record"], [{"n": ndoc, "len": ln} for _ in range(nreq)])
     absorb(ctx, [r for r in rec if not r["ok"]])
     recevents = [e for r in rec for e in (r.get("events") or [])]
@@ -169,4 +173,19 @@ def _validate_in(ctx, events, label, fname):
 
 
 def replay(ctx, rp):
-    return replay_generic(ctx, rp, ["c12", "replay"])
+    """R2 payloads are re-run and compared by the driver; payloads of violations that trace validation found are re-run
+    (driver mode tracecase) and judged by ChunkingTrace again."""
+    items = [r for r in [rp.get("replay")] + list(rp.get("more") or []) if isinstance(r, dict) and r.get("case")]
+    traced = [r["case"] for r in items if r.get("via") == "tracecase"]
+    if not traced:
+        return replay_generic(ctx, rp, ["c12", "replay"])
+    res = ctx.run_driver(["c12", "tracecase"], traced)
+    events = [e for r in res for e in (r.get("events") or [])]
+    _validate(ctx, events, "replay")
+    for v in ctx.violations:
+        print("REPRODUCED sig=%s: %s" % (v["sig"], v["what"][:400]))
+    if ctx.violations:
+        print("VIOLATION property=%s replay=%s" % (ctx.prop, "(replayed)"))
+        return 1
+    print("not reproduced: %d case(s) pass on the current tree" % len(traced))
+    return 0
